@@ -1,5 +1,6 @@
 import GeoVerif.Drv.Util
 import GeoVerif.Drv.C06
+import GeoVerif.Drv.C14
 import GeoVerif.Drv.C10
 import GeoVerif.Drv.C18
 import GeoVerif.Drv.C17
@@ -32,6 +33,7 @@ def handle (line : String) : String :=
     | ["tr", op] => handleTR op args
     | ["fc", op] => handleFC op args
     | ["hull", op] => handleHull op args
+    | ["gj", op] => handleGJ op args
     | _ => "bad-op"
 
 partial def loop (i o : IO.FS.Stream) : IO Unit := do
